@@ -23,7 +23,7 @@ func init() {
 			"needed-byte sets: sequential readers need every byte; indexed readers need the header, the footer and trailing magic, the summary section and the chunk records selected; a fault outside the needed set is counted as not_fired when the source never returned it",
 			"an error is delivered as (n>0, err) sticky, (0, err) on the next call sticky, or (0, err) one-shot; a one-shot (n>0, err) is not injected because io.ReadFull itself discards it; the quick tier picks one of the three per position by a hash of p, the thorough tier runs all three",
 		},
-		batches: map[string]int{"quick": 64, "thorough": 480},
+		batches: map[string]int{"quick": 64, "thorough": 96},
 		checks:  map[string]int{"quick": 3, "thorough": 10},
 	}})
 }
